@@ -1223,6 +1223,9 @@ def literal_text(f, atom, polarity):
         t, polarity = t[1], not polarity
     if t[0] == 'atom':
         return t[1], polarity
+    if t[0] in ('or', 'and') and all(k[0] == 'atom' for k in t[1]):
+        # membership in a literal tuple: `x in ('a', 'b')`
+        return (' %s ' % t[0]).join(sorted(k[1] for k in t[1])), polarity
     return canon(f, atom), polarity
 
 
